@@ -196,6 +196,20 @@ CHECKS = {
         "level_note": "Trusted: vfs log; VerifWaitIdleRO hook to define 'background work has drained'. Iterators are released before Close (documented requirement), so NewIterator is not part of the racing set.",
         "assumptions": DBM_ASSUME,
     },
+    "C19": {
+        "test": "TestC19", "level": "exploration", "engine": "dbm",
+        "technique": "property-based testing of leveldb.Recover over generated settled layouts with manifest loss and table-block damage; physical-entry oracle from the checker's own table/journal parsers",
+        "quick": {"shards": 16, "n": 300, "timeout": 600},
+        "thorough": {"shards": 16, "n": 15000, "timeout": 3000},
+        "floor": {"quick": 500, "thorough": 10000},
+        "replay_runs": 5,
+        "rule": "rapid draws a history (all layouts, overwritten and deleted keys, data left in the journal), settles and closes it, then removes / truncates / garbles the manifest or drops CURRENT, optionally alters one byte in 1-4 drawn table data blocks (block map from the checker's own table parser, taken before the damage), calls leveldb.Recover and continues with further generated steps; the C06 well-formedness predicate runs on every version installed by and after Recover. "
+                "Oracle: without block damage the full contents (Get/Has of every key + full scan) equal the model exactly; with damage Recover must succeed, every key whose globally newest entry (highest sequence over tables and journals) sits in an undamaged block returns exactly that entry's effect, any other key returns not-found or a value physically stored for it, and the recovered DB is self-consistent (point reads vs. scan) and usable. "
+                "Non-trivial: >=2 levels before shutdown with an overwritten version and a tombstone physically present.",
+        "level_text": "Exploration over generated settled states x manifest faults x block damage sets.",
+        "level_note": "Trusted: harness/tparse (table parser) and the journal reader used to list physical entries before the damage.",
+        "assumptions": DBM_ASSUME,
+    },
 }
 
 # Properties not claimed (reason); filled automatically with "not built yet" when absent.
